@@ -2,6 +2,7 @@ package sio
 
 import (
 	"net/http"
+	"sync/atomic"
 	"time"
 
 	"github.com/karagenc/socket.io-go/adapter"
@@ -80,6 +81,10 @@ type (
 		connectionStateRecovery ServerConnectionStateRecovery
 
 		debug Debugger
+
+		// Set by Close. A socket that is admitted while the server shuts down
+		// is told so (see serverConn.connect).
+		closing atomic.Bool
 
 		newNamespaceHandlers  *handlerStore[*ServerNewNamespaceFunc]
 		anyConnectionHandlers *handlerStore[*ServerAnyConnectionFunc]
@@ -285,6 +290,7 @@ func (s *Server) IsClosed() bool {
 
 // Shut down the server. Server cannot be restarted once it is closed.
 func (s *Server) Close() error {
+	s.closing.Store(true)
 	// Sockets of every namespace, not only of the default one.
 	for _, nsp := range s.namespaces.getAll() {
 		for _, _socket := range nsp.Sockets() {
